@@ -11,6 +11,12 @@ from detsim import runner, core
 mod = runner.load_prop(sys.argv[1].upper())
 d = json.load(open(sys.argv[2]))
 ch_list = d['choices']
+if os.environ.get('LOG'):
+    _ev = core.RunCtx.event
+    def _event(self, *a):
+        print('  EV', a)
+        return _ev(self, *a)
+    core.RunCtx.event = _event
 res = core.run_case(mod, replay=ch_list, keep_labels=True)
 print(json.dumps(res['plan'], default=repr))
 print('sched', res['sched_key'])
